@@ -73,7 +73,13 @@ def run_case(c):
                 if "raw" in op:             # a raw python value (misuse: wrong shape / non-member / ...)
                     pyval = op["raw"]
                 else:
-                    pyval = X.to_input(et, op["new"], op.get("form", "py"))
+                    form = op.get("form", "py")
+                    if form == "xobj_oo":
+                        nd = len(et["shape"]); c_order = list(range(nd))
+                        t2 = dict(et); t2["order"] = c_order if list(et["order"]) != c_order else c_order[::-1]
+                        pyval = X.to_input(t2, op["new"], "xobj")
+                    else:
+                        pyval = X.to_input(et, op["new"], form)
                 assign(t, top, op["path"], pyval, op.get("raw_index"))
             st["ok"] = True
         except BaseException as e:  # noqa
